@@ -430,3 +430,45 @@ def gate_search(repo, prop, tier, seed=1):
             shutil.rmtree(os.path.join(WORK_BASE, "des-drivers-target-" + tag), ignore_errors=True)
         fcntl.flock(lockf, fcntl.LOCK_UN)
         lockf.close()
+
+
+def shutdown_search(repo, prop, tier, seed=1):
+    """C09 bounded replay (replay/shutdown_driver): shutdown / restart scenarios on the real `des` crate."""
+    t0 = time.time()
+    os.makedirs(WORK_BASE, exist_ok=True)
+    lockf = open(os.path.join(WORK_BASE, "rt_driver.lock"), "w")
+    fcntl.flock(lockf, fcntl.LOCK_EX)
+    try:
+        count = 300000 if tier == "thorough" else 20000
+        res = {"what": "bounded replay of C09 on the real `des` crate: %d seeded random scenarios - module a (1..3 start-up stages, a task ticking every 10/20/30 ms for 1..6 ticks) asks at 11..81 ms for shutdown without restart or with restart after 10..60 ms; module b sends it 0..4 messages, sends 0..4 messages to module c through two transit gates of a, 0..4 over a direct link, and ticks itself. Expected and compared event for event (module, what, time): start-up stages at 0 and once more at exactly the restart time, ticks of the first task only before the shutdown and of the task spawned by the restart afterwards, reset exactly once at the shutdown time, messages to a and through a's gates handled iff a is up when they arrive (dropped ones never show up later), b's ticks and the direct link unaffected" % count,
+               "bound": "%d random scenarios; seed %d" % (count, seed), "labelled": "bounded", "counts_as_proof": False}
+        exe, err = _build_rt(repo, "shutdown_driver")
+        if exe is None:
+            res.update({"status": "not_run", "reason": "driver does not build against this tree: " + err, "wall_s": round(time.time() - t0, 2)})
+            return res
+        try:
+            p = subprocess.run([exe, "search", str(count), str(seed)], stdout=subprocess.PIPE, stderr=subprocess.PIPE, timeout=900)
+        except subprocess.TimeoutExpired:
+            res.update({"status": "mismatch", "mismatch": {"mismatch": True, "kind": "scenario-does-not-return", "props": "C09", "expected": "every scenario terminates", "observed": "no result within 900 s"}, "wall_s": round(time.time() - t0, 2)})
+            return res
+        line = (p.stdout.decode("utf8", "replace").strip().splitlines() or ["{}"])[-1]
+        try:
+            j = json.loads(line)
+        except Exception:
+            j = {}
+        res["wall_s"] = round(time.time() - t0, 2)
+        res["cmd"] = "shutdown_driver search %d %d   (built from replay/shutdown_driver against %s/des)" % (count, seed, repo)
+        if j.get("mismatch"):
+            res.update({"status": "mismatch", "mismatch": j})
+        elif "scenarios" in j:
+            res.update({"status": "no_mismatch", "scenarios": j["scenarios"], "sample": j.get("sample")})
+        else:
+            res.update({"status": "not_run", "reason": "driver crashed: " + p.stderr.decode("utf8", "replace")[-300:]})
+        return res
+    finally:
+        if repo != "/repo" and not os.environ.get("VERIF_KEEP_CACHE"):
+            tag = hashlib.sha1(repo.encode()).hexdigest()[:8]
+            shutil.rmtree(os.path.join(WORK_BASE, "shutdown_driver-" + tag), ignore_errors=True)
+            shutil.rmtree(os.path.join(WORK_BASE, "des-drivers-target-" + tag), ignore_errors=True)
+        fcntl.flock(lockf, fcntl.LOCK_UN)
+        lockf.close()
